@@ -95,6 +95,43 @@ theorem C11_session_le (sp : List (List Nat) → S) (calls : List (Call S)) (hsp
     have h2 := ih (fun c' hc' => hsp c' (by simp [hc'])) (runCall c m)
     simpa [session] using le_trans h1 h2
 
+/-! ### `check='immediate'` (outside the property: it scores the start with the call's gap weight and every step with the default one) -/
+
+theorem immFold_inv (sp0 : List (List Nat) → S) (m : List (List Nat)) : ∀ (steps : List Step) (st : List (List Nat) × S),
+    sp0 m ≤ st.2 → (st.1 = m ∨ sp0 st.1 = st.2) →
+    sp0 m ≤ (steps.foldl (immStep sp0 m) st).2 ∧
+      ((steps.foldl (immStep sp0 m) st).1 = m ∨ sp0 (steps.foldl (immStep sp0 m) st).1 = (steps.foldl (immStep sp0 m) st).2)
+  | [], st, h1, h2 => ⟨h1, h2⟩
+  | f :: fs, st, h1, h2 => by
+    simp only [List.foldl_cons]
+    apply immFold_inv sp0 m fs
+    · unfold immStep
+      by_cases h : ScoreOps.lt (sp0 (f st.1)) st.2 = true
+      · simp [h, h1]
+      · have h' : ScoreOps.lt (sp0 (f st.1)) st.2 = false := by simpa using h
+        simp only [h', Bool.false_eq_true, if_false]
+        have : ¬ sp0 (f st.1) < st.2 := fun hlt => by
+          have := (lt_iff (sp0 (f st.1)) st.2).mpr hlt
+          rw [h'] at this; exact Bool.false_ne_true this
+        exact le_trans h1 (not_lt.mp this)
+    · unfold immStep
+      by_cases h : ScoreOps.lt (sp0 (f st.1)) st.2 = true
+      · simp [h]
+      · have h' : ScoreOps.lt (sp0 (f st.1)) st.2 = false := by simpa using h
+        simp [h']
+
+/-- when the call's gap weight IS the default one (one score function), the immediate check is monotone as well:
+the matrix left is the saved one or one that scores at least as high -/
+theorem C11_immediate_le (sp : List (List Nat) → S) (steps : List Step) (m : List (List Nat)) :
+    sp m ≤ sp (iterImmediate sp sp steps m) := by
+  unfold iterImmediate
+  split
+  · exact le_refl _
+  · obtain ⟨h1, h2⟩ := immFold_inv sp m steps (m, sp m) (le_refl _) (Or.inl rfl)
+    rcases h2 with h2 | h2
+    · rw [h2]
+    · rw [h2]; exact h1
+
 /-- the statement for the function the code compares: `sum_of_pairs` with the scorer, gap cost and gap weight of the call -/
 theorem C11_iter_sumOfPairs (k : Kind) (sc : Nat → Nat → S) (gop gw : S) (steps : List Step) (m : List (List Nat)) :
     sumOfPairs k sc gop gw m ≤ sumOfPairs k sc gop gw (iterPass (sumOfPairs k sc gop gw) steps m) :=
@@ -112,6 +149,12 @@ example : iterPass (S := Int) (sumOfPairs .c (fun a b => if a == b then 10 else 
     [fun _ => [[1, 0], [0, 2]], fun x => x] [[1], [1]] = [[1], [1]] := by decide
 example : iterPass (S := Int) (sumOfPairs .c (fun a b => if a == b then 10 else 0) (-1) 1)
     [fun _ => [[1], [1]], fun x => x] [[1, 0], [0, 1]] = [[1], [1]] := by decide
+
+/-- why `check='immediate'` is outside the property: with two different score functions (gap weight of the call at the
+start, default gap weight at every step) a pass can end lower than it began, measured with the call's own score -/
+example : let sp : List (List Nat) → Int := fun m => if m = [[1]] then 5 else 0      -- the call's score
+          let sp0 : List (List Nat) → Int := fun m => if m = [[1]] then 5 else 9     -- the default-weight score
+          sp (iterImmediate sp sp0 [fun _ => [[2]], fun x => x] [[1]]) < sp [[1]] := by decide
 
 /-- `talign`'s variant differs exactly on a symbol facing a gap -/
 example : scoreProfile (S := Int) .t (fun _ _ => 4) (-2) 0 [1, 0] [1, 0] = 0 ∧
